@@ -13,7 +13,7 @@ from ..worlds import store
 ID = "C08"
 LEVEL = "exploration"
 CHUNK = 60
-BUDGET = {"quick": {"runs": 4000, "wall": 120}, "thorough": {"runs": 200000, "wall": 3000}}
+BUDGET = {"quick": {"runs": 4000, "wall": 120}, "thorough": {"runs": 200000, "wall": 1200}}
 RULE = ("histories of 4-14 events of 3 authors mixed with kind-5 deletions whose e tags reference own / "
         "foreign / unknown / malformed (non-hex, short, upper-case, one-element) / several / repeated "
         "ids, before or after their targets, on SQL-file and LMDB, each deletion followed by get_event, "
